@@ -118,4 +118,56 @@ example :
     lookup (fun _ => 7) [(Restr.obj 3, 10), (k', 11)] k = some 11 := by
   decide
 
+/-- **the hash of a boolean node does not depend on how the node was assembled**: after any sequence of `hash` /
+`add_restriction` / `finalize` calls on a node created with `finalize=False`, a cached hash exists only if the node is
+finalized, and it is the hash of the node's final children — the same key a node built in one go from those children
+hashes.  (What was hashed, and when, during construction is irrelevant: an unfinalized node refuses to be hashed.) -/
+theorem builder_hash_history_independent (k : Kind) (t : Nat) (n : Bool) (cs0 : List Restr) (ops : List BOp) :
+    let b := brun k t n ⟨cs0, false, none⟩ ops
+    ∀ h, b.cached = some h → b.finalized = true ∧ h = hashKey (.bool k t n b.cs) := by
+  have inv : ∀ (ops : List BOp) (b : Builder),
+      (∀ h, b.cached = some h → b.finalized = true ∧ h = hashKey (.bool k t n b.cs)) →
+      ∀ h, (brun k t n b ops).cached = some h →
+        (brun k t n b ops).finalized = true ∧ h = hashKey (.bool k t n (brun k t n b ops).cs) := by
+    intro ops
+    induction ops with
+    | nil => intro b hb; exact hb
+    | cons op ops ih =>
+      intro b hb
+      simp only [brun]
+      apply ih
+      cases op with
+      | hash =>
+        simp only [bstep]
+        cases hc : b.cached with
+        | some v => simpa [hc] using hb
+        | none =>
+          by_cases hf : b.finalized = true
+          · simp only [hf, if_true]
+            intro h hh
+            simp only [Option.some.injEq] at hh
+            exact ⟨trivial, hh.symm⟩
+          · simp only [hf, Bool.false_eq_true, if_false]
+            intro h hh; rw [hc] at hh; cases hh
+      | add rs =>
+        simp only [bstep]
+        split
+        · exact hb
+        · split
+          · exact hb
+          · rename_i hnf
+            intro h hh
+            have := (hb h hh).1
+            exact absurd this hnf
+      | finalize =>
+        simp only [bstep]
+        intro h hh
+        exact ⟨trivial, (hb h hh).2⟩
+  exact inv ops ⟨cs0, false, none⟩ (fun h hh => by cases hh)
+
+/-- not vacuous: hash refused while building, children added, finalized, hashed -/
+example :
+    let b := brun .and 2 false ⟨[.obj 1], false, none⟩ [.hash, .add [.obj 2], .hash, .finalize, .hash, .add [.obj 3]]
+    b.finalized = true ∧ b.cs.length = 2 ∧ b.cached.isSome = true := by decide
+
 end Pkgcore.C07
